@@ -112,6 +112,48 @@ theorem catOfKernel_buildCatMap (rows : List LogRow) (k : String) (hk : k ≠ "o
   have : ("other" == k) = false := by simpa using fun e : "other" = k => hk e.symm
   simp [catOfKernel, buildCatMap, lookup_foldl_addCat, lookup, this]
 
+theorem mem_of_lookup {β : Type} (t : List (String × β)) (k : String) (v : β) (h : lookup t k = some v) :
+    (k, v) ∈ t := by
+  induction t with
+  | nil => simp [lookup] at h
+  | cons p rest ih =>
+    by_cases hp : (p.1 == k) = true
+    · have hk : p.1 = k := by simpa using hp
+      simp only [lookup, hp, if_true, Option.some.injEq] at h
+      have : p = (k, v) := by cases p; simp_all
+      simp [this]
+    · simp only [lookup, hp] at h
+      exact List.mem_cons_of_mem _ (ih h)
+
+/-- every category of the map is `other` or the category of some log row -/
+theorem catmap_values (rows : List LogRow) (m : List (String × String))
+    (hm : ∀ p ∈ m, p.2 = "other" ∨ ∃ r ∈ rows, p.2 = handleCategory r.tag) (rs : List LogRow)
+    (hrs : ∀ r ∈ rs, r ∈ rows) :
+    ∀ p ∈ rs.foldl addCat m, p.2 = "other" ∨ ∃ r ∈ rows, p.2 = handleCategory r.tag := by
+  induction rs generalizing m with
+  | nil => exact hm
+  | cons r rs ih =>
+    apply ih
+    · intro p hp
+      unfold addCat at hp
+      split at hp
+      · exact hm p hp
+      · rcases List.mem_append.mp hp with h | h
+        · exact hm p h
+        · simp at h; subst h; exact Or.inr ⟨r, hrs r (by simp), rfl⟩
+    · exact fun x hx => hrs x (by simp [hx])
+
+/-- the category of any kernel name is `other` or the category of some log row -/
+theorem catOfKernel_cases (rows : List LogRow) (k : String) :
+    catOfKernel (buildCatMap rows) k = "other" ∨ ∃ r ∈ rows, catOfKernel (buildCatMap rows) k = handleCategory r.tag := by
+  unfold catOfKernel
+  cases h : lookup (buildCatMap rows) k with
+  | none => exact Or.inl rfl
+  | some v =>
+    have hmem := mem_of_lookup _ _ _ h
+    have := catmap_values rows [("other", "other")] (by simp) rows (fun r hr => hr) (k, v) hmem
+    simpa using this
+
 /-! ### category tables -/
 
 def accAt (t : CTab) (c : String) : Acc := (lookup t c).getD Acc.zero
